@@ -371,6 +371,37 @@ def _no_pin_left(ctx, mod):
         ctx.ob("R9", st, f"`{short(c, 50)}` on exit leaves no private copy for a key that had none when it was captured", ok, key="swap|restore-pins-private-copy", where=loc(c), detail=None if ok else f"the capture step can answer with `{short(merged[0], 40)}` (not read from the private layer) and the exit step writes that answer into the private layer for good" + ("" if records else "; no record of 'key had no private entry' is made at capture time"))
 
 
+def _computed_default_stays_scoped(ctx, mod, meths):
+    """R11: stores of values computed from `self` inside read paths."""
+    n = 0
+    for name in ("__getitem__", "get", "get_default", "__contains__"):
+        fn = meths.get(name)
+        if fn is None:
+            continue
+        cfg = None
+        fdefs = df.all_defs(fn)
+        for a in [x for x in ast.walk(fn) if isinstance(x, (ast.Assign, ast.NamedExpr))]:
+            tgts = a.targets if isinstance(a, ast.Assign) else [a.target]
+            st_t = [t for t in tgts if isinstance(t, ast.Subscript) and unparse(t.value) == "self._d"]
+            vals = [a.value]
+            if isinstance(a.value, ast.Name):
+                vals += [d.value for d in fdefs.get(a.value.id, []) if d.value is not None]
+            calls = [c for v_ in vals for c in ast.walk(v_) if isinstance(c, ast.Call) and any(isinstance(x, ast.Name) and x.id == "self" for x in c.args)]
+            if not st_t or not calls:
+                continue
+            n += 1
+            cfg = cfg or CFG(fn)
+            guarded = False
+            facts = []
+            for nd in cfg.nodes_of(a if isinstance(a, ast.Assign) else stmt_of(a)):
+                fa = _through_predicates(facts_at(cfg, nd), meths)
+                facts = facts_text(fa)
+                guarded = {unparse(e) for e, pol in fa if not pol} >= {"self._overlay_stack", "self._d._local"} or any((not pol) and unparse(e) in NO_OVERRIDES for e, pol in fa) and any((not pol) and unparse(e) == "self._overlay_stack" for e, pol in fa)
+            ctx.ob("R11", f"{EN}:Env.{name}", f"`{short(a, 60)}`: the value computed from this thread's view enters the shared mapping only when no scope is active in the thread", guarded, key=f"{name}|scoped-computation-stored-shared", where=loc(a), detail=None if guarded else "facts: " + ("; ".join(facts) or "none") + " - the store is InternalEnvironDict.__setitem__, which writes the shared layer unless the key has a private entry")
+    if n == 0:
+        raise AnalysisError(f"{EN}:Env: no materialisation of a computed default found in the read paths")
+
+
 def _iteration_sees_overlays(ctx, mod):
     """R10: keys taken from the overlays reach a yield of __iter__."""
     it = flat(ctx, mod.func("Env.__iter__"), 1)
@@ -465,6 +496,7 @@ def check(ctx):
     ctx.rule("R8", "a write or delete touches one layer of the two-layer store: in InternalEnvironDict.__setitem__ / __delitem__ / pop / popitem no path that changed the thread-private layer goes on to change the shared one (a delete inside a scope that also drops the shared value is seen by every other thread and is not undone when the scope ends)", floor=4)
     ctx.rule("R9", "a scope leaves no private copy behind: when the capture step can answer with a value that was not read from the thread-private layer (the shared mapping, a default, an overlay), the exit step removes the private entry it wrote for such a key (governed by a record, made at capture time, that the key had no private entry) - otherwise the old value stays pinned in the thread's private layer: it shows up in the mapping children receive although it was a default, and later assignments / deletions by this thread stay invisible to every other thread", floor=1)
     ctx.rule("R10", "iteration sees what [] sees: keys that only an overlay provides reach a yield of Env.__iter__ (so items(), dict(env) and `for k in env` agree with `in`, [] and detype())", floor=1)
+    ctx.rule("R11", "what a read computes from the thread's scoped view does not enter the shared mapping: a store `self._d[key] = <callable>(self)` in a read path of Env (the materialisation of a computed default) is governed by 'no overlay and no private entries in this thread' - otherwise a default read inside `swap(XDG_DATA_HOME=..)` keeps the value computed there, for every thread and every child, after the scope has ended", floor=1)
     ctx.rule("R7", "a scoped override is private from its first instant: asked for a thread-local set, _set_item reaches the thread-local store on every normal path - no shortcut (same value, same object, unchanged) returns before it; writes and deletes inside the scope are routed by 'is the key in the private layer', so a swap that left no private entry sends them to the shared mapping", floor=1)
     ctx.rule("R6", "what a worker thread inherits is the spawning thread's whole private view: the hand-over accessor returns a complete copy of the thread-local overrides - masks (DELETE_VAR) included, nothing filtered out or rewritten", floor=2)
     ctx.rule("R5", "thread-local state crosses a thread boundary only as a copy: no public method of Env / its dict hands out a thread-local container itself, and none installs a caller's object as thread-local state", floor=2)
@@ -762,6 +794,7 @@ def check(ctx):
     _local_set_always_lands(ctx, mod)
     _one_layer_per_write(ctx, mod)
     _no_pin_left(ctx, mod)
+    _computed_default_stays_scoped(ctx, mod, meths)
     _iteration_sees_overlays(ctx, mod)
     # installing: the function that does the work empties and refills the thread's own container - the same one
     icls, ifn, iparam = _installer(model)
